@@ -175,6 +175,30 @@ def dictionary_sweep(ctx):
                 ctx.fail('plain script (dictionary sweep): number of statements', text, observed=got, required=want)
 
 
+def tail_sweep(ctx):
+    """what follows the LAST terminator — comments of every kind, blank lines, both, nothing: trailing whitespace never adds a statement, no returned
+    statement is empty or whitespace-only, and the text in front of the tail is split as it is without the tail"""
+    tails = ['', '\n', '\n\n', ' -- done', ' -- done\n', ' -- done\n\n', ' -- done\n  \n', ' # done\n\n\n', '\n-- c\n', '\n-- c\n\n', ' /* c */', ' /* c */\n\n', '\n/* c */\n \n',
+             ' -- a\n-- b\n\n', '\t\r\n', ' --\n\n', ' --+ h\n\n', '\n\n-- c', ' ;', ' ; \n', ';;\n\n']
+    bases = ['select 1;', 'select a from b; update t set a = 1;', 'create table t (a int);', 'select 1; select 2\n;', 'begin; commit;']
+    for b in bases:
+        for t in tails:
+            text = b + t
+            ctx.evaluations += 1
+            try:
+                pieces = sqlparse.split(text)
+                stmts = [str(x) for x in sqlparse.parse(text)]
+                ref = len(sqlparse.split(text.rstrip()))
+            except Exception as e:
+                ctx.fail('split/parse raised ' + type(e).__name__, text, observed=repr(e)[:200], required='statements')
+                continue
+            if len(pieces) != ref or len(stmts) != ref:
+                ctx.fail('trailing whitespace changes the number of statements', text, observed=[len(pieces), len(stmts)], required=ref)
+            elif any(not p.strip() for p in pieces) or any(not x.strip() for x in stmts):
+                ctx.fail('an empty / whitespace-only statement is returned', text, observed=pieces, required='no empty statement')
+    ctx.count('tail sweep', len(bases) * len(tails))
+
+
 def affixed_word_sweep(ctx):
     """NAMES built from every dictionary word (and GO) plus a character that keeps them one name — `go$stage`, `begin#1`, `end_x`, `x_declare`, `@go`,
     `case1` — in ordinary positions of plain statements: a name is never a keyword, so the script is split at its top-level semicolons only.
@@ -368,6 +392,7 @@ def run(ctx):
     rng = ctx.rng
     dictionary_sweep(ctx)
     affixed_word_sweep(ctx)
+    tail_sweep(ctx)
     region_sweep(ctx)
     second_pass_sweeps(ctx)
     paren_line_sweep(ctx)
